@@ -225,11 +225,8 @@ impl SimdStringOps {
         
         // Handle remaining bytes
         let remaining_start = chunks * 32;
-        for &byte in &bytes[remaining_start..] {
-            hash = hash.rotate_left(5).wrapping_add(byte as u64);
-        }
-        
-        hash
+        // same tail rule as the scalar definition: 8-byte words first, then single bytes
+        self.scalar_string_hash(&bytes[remaining_start..], hash)
     }
 
     // =============================================================================
@@ -285,11 +282,8 @@ impl SimdStringOps {
         
         // Handle remaining bytes
         let remaining_start = chunks * 16;
-        for &byte in &bytes[remaining_start..] {
-            hash = hash.rotate_left(5).wrapping_add(byte as u64);
-        }
-        
-        hash
+        // same tail rule as the scalar definition: 8-byte words first, then single bytes
+        self.scalar_string_hash(&bytes[remaining_start..], hash)
     }
 
     // =============================================================================
@@ -346,11 +340,8 @@ impl SimdStringOps {
         
         // Handle remaining bytes
         let remaining_start = chunks * 64;
-        for &byte in &bytes[remaining_start..] {
-            hash = hash.rotate_left(5).wrapping_add(byte as u64);
-        }
-        
-        hash
+        // same tail rule as the scalar definition: 8-byte words first, then single bytes
+        self.scalar_string_hash(&bytes[remaining_start..], hash)
     }
 
     // =============================================================================
